@@ -36,7 +36,7 @@ def check(run):
     R = run
     R.rule('C02.shared', 'objects created once per class / per function definition (class-level attributes, parameter '
            'defaults) are only read: no buffer, validator, poll object, header list or option dict is shared between '
-           'connections', 2)
+           'connections', 1)
     from .common import shared_state
     shared_state(R, 'C02.shared')
     R.rule('C02.P1a', 'fixed-count reads: chunk appended to the persistent buffer, outstanding count stored back when '
